@@ -1,0 +1,233 @@
+//go:build verif
+// +build verif
+
+package netpoll
+
+// Contracts for the LinkBuffer (gocv, contract-based deductive verification).
+// Comment-only file: compiled only with -tags verif and contains no code.
+//
+// Ghost state (never read or written by executable code):
+//   own(n)  the buffer whose chain the node is linked into (nil: none)
+//   ord(n)  a real number strictly increasing along next, unique per buffer
+//   sp(n)   stream position of the (virtual) byte n.buf[0]: byte n.buf[i] is byte sp(n)+i
+//           of the stream that has been, or is about to be, flushed into the buffer
+
+//@ ghost field linkBufferNode.own *UnsafeLinkBuffer
+//@ ghost field linkBufferNode.ord real
+//@ ghost field linkBufferNode.sp int
+
+//@ pure nlen(n *linkBufferNode) int = len(n.buf) - n.off
+//@ pure inb(b *UnsafeLinkBuffer, n *linkBufferNode) bool = n != nil && n.own == b
+//@ pure rpos(b *UnsafeLinkBuffer) int = b.read.sp + b.read.off
+//@ pure fpos(b *UnsafeLinkBuffer) int = b.flush.sp + len(b.flush.buf)
+//@ pure mpos(b *UnsafeLinkBuffer) int = b.write.sp + b.write.malloc
+
+//@ pred wfcur(b *UnsafeLinkBuffer) = b != nil && inb(b, b.head) && inb(b, b.read) && inb(b, b.flush) && inb(b, b.write)
+//@     && b.head.ord <= b.read.ord && b.read.ord <= b.flush.ord && b.flush.ord <= b.write.ord
+//@ pred wflin(b *UnsafeLinkBuffer) = forall n *linkBufferNode, m *linkBufferNode ::
+//@     inb(b, n) && inb(b, m) && n.ord < m.ord ==> n.next != nil && n.next.own == b && n.next.ord > n.ord && n.next.ord <= m.ord
+//@ pred wfclosed(b *UnsafeLinkBuffer) = forall n *linkBufferNode {n.next} ::
+//@     inb(b, n) && n.next != nil ==> n.next.own == b && n.next.ord > n.ord
+//@ pred wfuniq(b *UnsafeLinkBuffer) = forall n *linkBufferNode, m *linkBufferNode ::
+//@     inb(b, n) && inb(b, m) && n.ord == m.ord ==> n == m
+//@ pred wfnode(b *UnsafeLinkBuffer) = forall n *linkBufferNode ::
+//@     inb(b, n) ==> 0 <= n.off && n.off <= len(n.buf) && len(n.buf) <= n.malloc && n.malloc <= cap(n.buf)
+//@ pred wfshape(b *UnsafeLinkBuffer) = forall n *linkBufferNode :: inb(b, n) ==>
+//@     (n.ord < b.flush.ord ==> len(n.buf) == n.malloc)
+//@     && (n.ord > b.flush.ord ==> len(n.buf) == n.off)
+//@     && (n.ord > b.write.ord ==> n.malloc == len(n.buf))
+//@ pred wfpos(b *UnsafeLinkBuffer) = forall n *linkBufferNode ::
+//@     inb(b, n) && b.read.ord <= n.ord && n.ord < b.write.ord ==> n.next.sp + n.next.off == n.sp + n.malloc
+//@ pred wfs(b *UnsafeLinkBuffer) = wfcur(b) && wflin(b) && wfclosed(b) && wfuniq(b) && wfnode(b) && wfshape(b) && wfpos(b)
+//@     && len(b.cachePeek) >= 0 && len(b.cachePeek) <= cap(b.cachePeek)
+//@ pred wfcnt(b *UnsafeLinkBuffer, d int) = b.length == fpos(b) - rpos(b) - d && b.mallocSize == mpos(b) - fpos(b)
+//@ pred wf(b *UnsafeLinkBuffer) = wfs(b) && wfcnt(b, 0)
+
+//@ func (*linkBufferNode).Len
+//@   property C01
+//@   ensures l == len(node.buf) - node.off
+//@
+//@ func (*linkBufferNode).Next
+//@   property C01 C02
+//@   requires 0 <= node.off && 0 <= n && node.off + n <= len(node.buf)
+//@   ensures node.off == old(node.off) + n
+//@   ensures len(p) == n && cap(p) == n && p#arr == node.buf#arr && p#base == node.buf#base + old(node.off)
+//@   modifies node.off
+//@
+//@ func (*linkBufferNode).Peek
+//@   property C01 C02
+//@   requires 0 <= node.off && 0 <= n && node.off + n <= len(node.buf)
+//@   ensures len(p) == n && cap(p) == n && p#arr == node.buf#arr && p#base == node.buf#base + node.off
+//@
+//@ func (*linkBufferNode).Malloc
+//@   property C01 C02
+//@   requires 0 <= node.malloc && 0 <= n && node.malloc + n <= cap(node.buf)
+//@   ensures node.malloc == old(node.malloc) + n
+//@   ensures len(buf) == n && cap(buf) == n && buf#arr == node.buf#arr && buf#base == node.buf#base + old(node.malloc)
+//@   modifies node.malloc
+
+//@ func (*UnsafeLinkBuffer).isSingleNode
+//@   property C01
+//@   requires wfs(b) && (readN > 0 ==> fpos(b) - rpos(b) >= readN)
+//@   ensures wfs(b) && rpos(b) == old(rpos(b)) && b.read.ord >= old(b.read.ord)
+//@   ensures readN <= 0 ==> single && b.read == old(b.read)
+//@   ensures readN > 0 && single ==> nlen(b.read) >= readN
+//@   modifies b.read
+//@   loop 1 invariant inb(b, b.read) && b.read.ord <= b.flush.ord && b.read.ord >= old(b.read.ord)
+//@   loop 1 invariant rpos(b) == old(rpos(b)) && l == nlen(b.read)
+
+//@ func (*UnsafeLinkBuffer).Skip
+//@   property C01 C04 C16
+//@   requires wf(b)
+//@   ensures old(n <= 0) ==> err == nil && unchanged(UnsafeLinkBuffer.length, UnsafeLinkBuffer.read, linkBufferNode.off, UnsafeLinkBuffer.cachePeek)
+//@   ensures old(n > 0 && b.length < n) ==> err != nil && unchanged(UnsafeLinkBuffer.length, UnsafeLinkBuffer.read, linkBufferNode.off, UnsafeLinkBuffer.cachePeek)
+//@   ensures old(n > 0 && b.length >= n) ==> err == nil && wf(b) && rpos(b) == old(rpos(b)) + n && b.length == old(b.length) - n
+//@   ensures forall m *linkBufferNode :: !inb(b, m) ==> m.off == old(m.off)
+//@   modifies b.length, b.read, b.cachePeek, linkBufferNode.off
+//@   loop 1 invariant ack > 0 && inb(b, b.read) && b.read.ord >= old(b.read.ord) && b.read.ord <= b.flush.ord
+//@   loop 1 invariant rpos(b) + ack == old(rpos(b)) + n && fpos(b) - rpos(b) >= ack
+
+// ---- allocation wrappers (bodies call mcache / dirtmake: assumed, see trusted base) ----
+
+//@ func malloc
+//@   trusted wraps mcache.Malloc (pool) and dirtmake.Bytes; the pool contract is assumed
+//@   requires 0 <= size && size <= capacity
+//@   ensures fresh(result) && result#arr != 0 && len(result) == size && cap(result) >= capacity && result#base == 0
+//@   ensures capacity > mallocMax ==> cap(result) == capacity
+//@
+//@ func free
+//@   trusted wraps mcache.Free; the pool contract is assumed
+
+//@ func newLinkBufferNode
+//@   property C01 C03
+//@   ensures fresh(result) && result != nil && result.off == 0 && result.malloc == 0 && result.refer == 1
+//@   ensures result.next == nil && result.origin == nil && result.own == nil && len(result.buf) == 0
+//@   ensures size <= 0 ==> result.mode == 1 && cap(result.buf) == 0
+//@   ensures size > 0 ==> result.mode == 0 && cap(result.buf) >= size && fresh(result.buf) && result.buf#base == 0
+//@   modifies nothing
+
+//@ func (*UnsafeLinkBuffer).Next
+//@   property C01 C02
+//@   requires wf(b)
+//@   ensures old(n <= 0) ==> err == nil && len(p) == 0 && unchanged(UnsafeLinkBuffer.length, UnsafeLinkBuffer.read, linkBufferNode.off, UnsafeLinkBuffer.cachePeek, UnsafeLinkBuffer.caches, linkBufferNode.mode)
+//@   ensures old(n > 0 && b.length < n) ==> err != nil && unchanged(UnsafeLinkBuffer.length, UnsafeLinkBuffer.read, linkBufferNode.off, UnsafeLinkBuffer.cachePeek, UnsafeLinkBuffer.caches, linkBufferNode.mode)
+//@   ensures old(n > 0 && b.length >= n) ==> err == nil && len(p) == n && wf(b) && rpos(b) == old(rpos(b)) + n && b.length == old(b.length) - n
+//@   ensures old(n > 0 && b.length >= n) ==> fresh(p) || (p#arr == b.read.buf#arr && p#base == b.read.buf#base + b.read.off - n && b.read.mode & 2 != 0)
+//@   ensures forall m *linkBufferNode :: !inb(b, m) ==> m.off == old(m.off) && m.mode == old(m.mode)
+//@   modifies b.length, b.read, b.cachePeek, b.caches, linkBufferNode.off, linkBufferNode.mode, mem:[]byte
+//@   loop 1 invariant ack > 0 && pIdx >= 0 && pIdx + ack == n && len(p) == n && fresh(p) && wfs(b)
+//@   loop 1 invariant b.read.ord >= old(b.read.ord) && rpos(b) + ack == old(rpos(b)) + n && fpos(b) - rpos(b) >= ack
+//@   loop 1 invariant b.length == old(b.length) - n && b.mallocSize == old(b.mallocSize) && fpos(b) == old(fpos(b)) && mpos(b) == old(mpos(b))
+//@   loop 1 invariant forall m *linkBufferNode :: !inb(b, m) ==> m.off == old(m.off)
+
+//@ func (*UnsafeLinkBuffer).Peek
+//@   property C01 C02
+//@   requires wf(b)
+//@   ensures old(n <= 0) ==> err == nil && len(p) == 0 && unchanged(UnsafeLinkBuffer.read, UnsafeLinkBuffer.cachePeek, linkBufferNode.mode)
+//@   ensures old(n > 0 && b.length < n) ==> err != nil && unchanged(UnsafeLinkBuffer.read, UnsafeLinkBuffer.cachePeek, linkBufferNode.mode)
+//@   ensures old(n > 0 && b.length >= n) ==> err == nil && len(p) == n && wf(b) && rpos(b) == old(rpos(b))
+//@   ensures old(n > 0 && b.length >= n) ==> p#arr == b.cachePeek#arr || (p#arr == b.read.buf#arr && p#base == b.read.buf#base + b.read.off && b.read.mode & 2 != 0)
+//@   ensures forall m *linkBufferNode :: !inb(b, m) ==> m.mode == old(m.mode)
+//@   modifies b.read, b.cachePeek, linkBufferNode.mode, mem
+//@   loop 1 invariant len(p) <= n && (scanned <= len(p) || len(p) == n) && 0 <= scanned && p#arr != 0 && len(p) <= cap(p) && n <= cap(p)
+//@   loop 1 invariant len(p) < n ==> inb(b, node) && node.ord >= b.read.ord && node.ord <= b.flush.ord && node.sp + node.off == rpos(b) + scanned
+
+//@ func (*UnsafeLinkBuffer).ReadByte
+//@   property C01
+//@   requires wf(b)
+//@   ensures old(b.length < 1) ==> err != nil && unchanged(UnsafeLinkBuffer.length, UnsafeLinkBuffer.read, linkBufferNode.off, UnsafeLinkBuffer.cachePeek)
+//@   ensures old(b.length >= 1) ==> err == nil && wf(b) && rpos(b) == old(rpos(b)) + 1 && b.length == old(b.length) - 1
+//@   ensures forall m *linkBufferNode :: !inb(b, m) ==> m.off == old(m.off)
+//@   modifies b.length, b.read, b.cachePeek, linkBufferNode.off
+//@   loop 1 invariant inb(b, b.read) && b.read.ord >= old(b.read.ord) && b.read.ord <= b.flush.ord
+//@   loop 1 invariant rpos(b) == old(rpos(b)) && fpos(b) - rpos(b) >= 1
+
+//@ func (*UnsafeLinkBuffer).readBinary
+//@   property C01 C03
+//@   requires wfs(b) && wfcnt(b, 0) && n > 0 && b.length >= n
+//@   ensures len(p) == n && fresh(p) && wf(b) && rpos(b) == old(rpos(b)) + n && b.length == old(b.length) - n
+//@   ensures forall m *linkBufferNode :: !inb(b, m) ==> m.off == old(m.off)
+//@   modifies b.length, b.read, b.cachePeek, linkBufferNode.off
+//@   loop 1 invariant ack > 0 && pIdx >= 0 && pIdx + ack == n && len(p) == n && fresh(p) && wfs(b)
+//@   loop 1 invariant b.read.ord >= old(b.read.ord) && rpos(b) + ack == old(rpos(b)) + n && fpos(b) - rpos(b) >= ack
+//@   loop 1 invariant b.length == old(b.length) - n && b.mallocSize == old(b.mallocSize) && fpos(b) == old(fpos(b)) && mpos(b) == old(mpos(b))
+//@   loop 1 invariant forall m *linkBufferNode :: !inb(b, m) ==> m.off == old(m.off)
+
+//@ func (*UnsafeLinkBuffer).ReadBinary
+//@   property C01 C03
+//@   requires wf(b)
+//@   ensures old(n <= 0) ==> err == nil && len(p) == 0 && unchanged(UnsafeLinkBuffer.length, UnsafeLinkBuffer.read, linkBufferNode.off, UnsafeLinkBuffer.cachePeek)
+//@   ensures old(n > 0 && b.length < n) ==> err != nil && unchanged(UnsafeLinkBuffer.length, UnsafeLinkBuffer.read, linkBufferNode.off, UnsafeLinkBuffer.cachePeek)
+//@   ensures old(n > 0 && b.length >= n) ==> err == nil && len(p) == n && fresh(p) && wf(b) && rpos(b) == old(rpos(b)) + n && b.length == old(b.length) - n
+//@   ensures forall m *linkBufferNode :: !inb(b, m) ==> m.off == old(m.off)
+//@   modifies b.length, b.read, b.cachePeek, linkBufferNode.off
+
+//@ func (*UnsafeLinkBuffer).ReadString
+//@   property C01 C03
+//@   requires wf(b)
+//@   ensures old(n <= 0) ==> err == nil && len(s) == 0 && unchanged(UnsafeLinkBuffer.length, UnsafeLinkBuffer.read, linkBufferNode.off, UnsafeLinkBuffer.cachePeek)
+//@   ensures old(n > 0 && b.length < n) ==> err != nil && unchanged(UnsafeLinkBuffer.length, UnsafeLinkBuffer.read, linkBufferNode.off, UnsafeLinkBuffer.cachePeek)
+//@   ensures old(n > 0 && b.length >= n) ==> err == nil && len(s) == n && wf(b) && rpos(b) == old(rpos(b)) + n && b.length == old(b.length) - n
+//@   ensures forall m *linkBufferNode :: !inb(b, m) ==> m.off == old(m.off)
+//@   modifies b.length, b.read, b.cachePeek, linkBufferNode.off
+
+//@ func unsafeSliceToString
+//@   trusted unsafe reinterpretation of a slice header as a string header
+//@   ensures len(result) == len(b)
+//@
+//@ func unsafeStringToSlice
+//@   trusted unsafe reinterpretation of a string header as a slice header (the bytes stay caller-owned)
+//@   ensures len(b) == len(s) && cap(b) == len(s) && (len(s) > 0 ==> b#arr != 0)
+
+// ---- frame: what an operation on buffer b may do to nodes ----
+// Nodes that existed before and were not owned by b are untouched; a node whose owner changes
+// ends up owned by b or by nobody.
+//@ pred samenode(m *linkBufferNode) = m.off == old(m.off) && m.malloc == old(m.malloc) && m.mode == old(m.mode) && m.refer == old(m.refer)
+//@     && m.next == old(m.next) && m.origin == old(m.origin) && sameslice(m.buf, old(m.buf))
+//@     && m.own == old(m.own) && m.ord == old(m.ord) && m.sp == old(m.sp)
+//@ pred others(b *UnsafeLinkBuffer) = forall m *linkBufferNode ::
+//@     (wasalloc(m) && old(m.own) != b ==> samenode(m)) && (m != nil && m.own != old(m.own) ==> m.own == b || m.own == nil)
+
+// attach a fresh node v behind w (= b.write): the spare nodes that followed w are dropped from the chain
+//@ ghostproc attach(b *UnsafeLinkBuffer, w *linkBufferNode, v *linkBufferNode) =
+//@     forall m *linkBufferNode :: m.own = ite(m != nil && m.own == b && m.ord > w.ord, nil, m.own);
+//@     v.own = b; v.ord = w.ord + 1; v.sp = w.sp + w.malloc - v.off
+
+//@ func (*UnsafeLinkBuffer).growth
+//@   property C01
+//@   requires wfs(b)
+//@   ensures wfs(b) && others(b) && b.write.ord >= old(b.write.ord) && mpos(b) == old(mpos(b)) && rpos(b) == old(rpos(b)) && fpos(b) == old(fpos(b))
+//@   ensures n > 0 ==> b.write.mode & 1 == 0 && cap(b.write.buf) - b.write.malloc >= n
+//@   ensures n <= 0 ==> b.write == old(b.write)
+//@   modifies b.write, linkBufferNode.next, linkBufferNode.own, linkBufferNode.ord, linkBufferNode.sp
+//@   ghost after store next#1: attach(b, b.write, value)
+//@   ghost before store write#2: value.sp = b.write.sp + b.write.malloc - value.off
+//@   loop 1 invariant wfs(b) && others(b) && b.write.ord >= old(b.write.ord) && mpos(b) == old(mpos(b)) && rpos(b) == old(rpos(b)) && fpos(b) == old(fpos(b))
+//@   loop 1 modifies b.write, linkBufferNode.sp
+
+//@ func (*UnsafeLinkBuffer).Malloc
+//@   property C01 C02
+//@   requires wf(b)
+//@   ensures old(n <= 0) ==> err == nil && len(buf) == 0 && unchanged(UnsafeLinkBuffer.mallocSize, UnsafeLinkBuffer.write, linkBufferNode.malloc, linkBufferNode.next)
+//@   ensures old(n > 0) ==> err == nil && len(buf) == n && wf(b) && others(b)
+//@   ensures old(n > 0) ==> b.mallocSize == old(b.mallocSize) + n && b.length == old(b.length) && rpos(b) == old(rpos(b)) && fpos(b) == old(fpos(b))
+//@   ensures old(n > 0) ==> buf#arr == b.write.buf#arr && buf#base == b.write.buf#base + b.write.malloc - n && b.write.mode & 1 == 0
+//@   modifies b.mallocSize, b.write, linkBufferNode.next, linkBufferNode.malloc, linkBufferNode.own, linkBufferNode.ord, linkBufferNode.sp
+
+//@ func (*UnsafeLinkBuffer).MallocLen
+//@   property C01
+//@   ensures length == b.mallocSize
+
+//@ func (*UnsafeLinkBuffer).MallocAck
+//@   property C01 C16
+//@   requires wf(b) && n <= b.mallocSize
+//@   ensures old(n < 0) ==> err != nil && unchanged(UnsafeLinkBuffer.mallocSize, UnsafeLinkBuffer.write, linkBufferNode.malloc, linkBufferNode.refer, linkBufferNode.buf)
+//@   ensures old(n >= 0) ==> err == nil && wf(b) && others(b) && b.mallocSize == n && b.length == old(b.length) && rpos(b) == old(rpos(b)) && fpos(b) == old(fpos(b))
+//@   modifies b.mallocSize, b.write, linkBufferNode.malloc, linkBufferNode.refer, linkBufferNode.buf
+//@   loop 1 invariant ack >= 0 && (ack == 0 ==> n == 0) && inb(b, b.write) && b.flush.ord <= b.write.ord && b.write.ord <= old(b.write.ord)
+//@   loop 1 invariant b.write.sp + len(b.write.buf) - fpos(b) == n - ack
+//@   loop 2 invariant node == nil || (inb(b, node) && node.ord > b.write.ord)
+//@   loop 2 invariant forall m *linkBufferNode :: inb(b, m) && m.ord > b.write.ord && (node == nil || m.ord < node.ord) ==> m.malloc == m.off && len(m.buf) == m.off && cap(m.buf) >= m.off
+//@   loop 2 invariant forall m *linkBufferNode :: !(inb(b, m) && m.ord > b.write.ord && (node == nil || m.ord < node.ord)) ==> (m.malloc == old(m.malloc) || m == b.write) && sameslice(m.buf, old(m.buf)) && m.refer == old(m.refer)
+//@   loop 2 invariant forall m *linkBufferNode :: m == b.write ==> m.malloc <= old(m.malloc) && m.malloc >= len(m.buf)
+//@   loop 2 invariant b.mallocSize == n && (n > 0 ==> mpos(b) - fpos(b) == n)
